@@ -4,7 +4,7 @@
    cola/utils/torch_tqdm.py:while_loop_winfo over an abstract scalar/vector interface; the same term is executed
    on PrimFloat by the correspondence check. *)
 From Coq Require Import List Bool Arith QArith Qcanon.
-From Core Require Import C12_Ops C12_Model C12_Contract C12_Krylov C12_Run C12_Summary C12_Witness.
+From Core Require Import C12_Ops C12_Model C12_Contract C12_Krylov C12_Run C12_Homog C12_Summary C12_Witness.
 Import ListNotations.
 Local Close Scope Qc_scope. Local Close Scope Q_scope.
 
@@ -38,6 +38,27 @@ Theorem C12_zero_rhs : forall (T : Type) (o : ops T),
   exists x, nth_error (sol (run_cg o (lvops o) A P flag tol max_iters bs x0s)) j = Some x /\ allzero o x.
 Proof. exact @cg_zero_rhs. Qed.
 Print Assumptions C12_zero_rhs.
+
+(* homogeneity in b for a zero initial guess: cg(alpha*B) = alpha*cg(B), same steps / iterations / residual history, for every
+   non-zero real or complex alpha = |alpha| * u (exact module laws on vectors, guards on ||b|| inactive) *)
+Theorem C12_homogeneous : forall (T V : Type) (o : ops T) (vo : vops T V) (A P : V -> V), module_laws o vo A P ->
+  forall u alpha a : T, omul o (oconj o u) u = o1 o -> a <> o0 o -> u = odiv o alpha a ->
+  forall (flag : bool) (tol : T) (max_iters : nat) (bs x0s : list V),
+  (forall b x0, In (b, x0) (combine bs x0s) -> good_col o vo alpha a b x0) ->
+  let r := run_cg o vo A P flag tol max_iters bs x0s in
+  let r' := run_cg o vo A P flag tol max_iters (map (vscale vo alpha) bs) x0s in
+  sol r' = map (vscale vo alpha) (sol r) /\ steps r' = steps r /\ iterations r' = iterations r /\ errors r' = errors r.
+Proof. exact @cg_homogeneous_b. Qed.
+Print Assumptions C12_homogeneous.
+
+(* its hypotheses are satisfiable: alpha = -2 on a 2x2 rational system *)
+Example C12_homogeneous_instance :
+  let b : V2 := (qz 3, qz 4) in let x0 : V2 := (qz 0, qz 0) in
+  let r := run_cg QcOps v2ops A2 P2 false wtol 2 [b] [x0] in
+  let r' := run_cg QcOps v2ops A2 P2 false wtol 2 (map (vscale v2ops (qz (-2))) [b]) [x0] in
+  sol r' = map (vscale v2ops (qz (-2))) (sol r) /\ steps r' = steps r /\ iterations r' = iterations r /\ errors r' = errors r.
+Proof. exact cg_homogeneous_instance. Qed.
+Print Assumptions C12_homogeneous_instance.
 
 (* columns do not influence each other's values *)
 Theorem C12_column_independent : forall (T V : Type) (o : ops T) (vo : vops T V) (A P : V -> V) flag tol (bs x0s : list V) k j b x0,
@@ -84,6 +105,18 @@ Theorem C12_run_optimal : forall (T V : Type) (o : ops T) (vo : vops T V) (A P :
       forall c, Pos (osub o (phi vo A xs (vadd vo xk (comb o vo A P c0 (steps r) c))) (phi vo A xs xk)).
 Proof. exact @cg_run_optimal_b. Qed.
 Print Assumptions C12_run_optimal.
+
+(* the full statement: optimality over the preconditioned Krylov space K_k(PA, P r0) itself (flag cleared) *)
+Theorem C12_krylov_optimal : C12_full.
+Proof. exact C12_full_proved. Qed.
+Print Assumptions C12_krylov_optimal.
+
+(* span{p_0..p_(k-1)} = K_k(PA, P r0): both inclusions *)
+Theorem C12_span_is_krylov : forall (T V : Type) (o : ops T) (vo : vops T V) (A P : V -> V), ips_laws o vo A P ->
+  forall c0 K, started vo P c0 -> no_breakdown o vo A P c0 K -> forall k v, k <= S K ->
+  (Sp o vo (kgen A P c0) k v <-> Sp o vo (pgen o vo A P c0) k v).
+Proof. exact @span_is_krylov_b. Qed.
+Print Assumptions C12_span_is_krylov.
 
 (* the hypotheses of C12_run_optimal are satisfiable: a 2x2 rational system, two steps *)
 Example C12_run_optimal_instance :
